@@ -3,7 +3,7 @@
    code generator (Sem/LabelGuard.v, Sem/WfGuard64.v, Sem/WfGuard.v):
      labels_guard    the label texts are unambiguous (known finding label-collision-name-digits outside it)
      imm_guard_rv    literals are 64-bit values (`LI`), a type declares at most 512 xtors (`ADDI X1, Xt, 4k`: a real
-                     limit of the back end), a Substitute lists at most 2048 pairs
+                     limit of the back end)
      size_guard      cg_bound_defs <= 2^40 (the code fits the image)
    `calls_guard` follows from the linear discipline (Proof/X86WfCor.lin_check_calls_guard). *)
 From Coq Require Import List ZArith NArith String Bool Lia.
@@ -75,7 +75,7 @@ Definition wide_type_prog (n : nat) : prog :=
 Lemma asm_wf_xtors_needed :
   let p := wide_type_prog 514 in
   labels_guard p = true /\ lin_check_prog p = true /\
-  imm_guardP RV_SUBST_MAX 514 lit64 p = true /\ imm_guard_rv p = false /\
+  imm_guardP 514 lit64 p = true /\ imm_guard_rv p = false /\
   exists cs n lc', rv_compile p 0 = Backend.Ok (cs, n, lc') /\
     asm_wf cs = Some "operand not encodable in its instruction form"%string /\
     In (ADDI TEMP 5%N 2052) cs.
